@@ -3,6 +3,7 @@ import ALV.Model.C19
 import ALV.Spec.C19
 import ALV.Model.C19Obj
 import ALV.Spec.C19Obj
+import ALV.Driver.C19Float
 namespace ALV.Driver.C19
 open ALV ALV.J ALV.C19
 
@@ -189,7 +190,7 @@ def handle1 (entry : String) (j : Json) : Except String Json := do
     pure <| Json.mkObj [("model", model),
       ("spec", Json.mkObj [("out", rats sp.1), ("ended", Json.bool sp.2)]),
       ("short", Json.bool (resShort sig order))]
-  | _ => throw s!"C19: unknown entry {entry}"
+  | _ => ALV.Driver.C19Float.handle entry j
 
 /-! ### long runs: only a sparse set of positions of every output list is transported -/
 
